@@ -124,13 +124,23 @@ def flat(spec):
     return [(x.__name__, x.__module__) for x in spec.flattened()]
 
 
+ALLOWED_OPCODES = {'PROTO', 'FRAME', 'STOP', 'GLOBAL', 'STACK_GLOBAL', 'SHORT_BINUNICODE', 'BINUNICODE', 'BINUNICODE8', 'UNICODE',
+                   'STRING', 'BINSTRING', 'SHORT_BINSTRING', 'MEMOIZE', 'PUT', 'BINPUT', 'LONG_BINPUT', 'GET', 'BINGET', 'LONG_BINGET',
+                   'MARK', 'TUPLE', 'TUPLE1', 'TUPLE2', 'TUPLE3', 'EMPTY_TUPLE', 'REDUCE', 'POP', 'POP_MARK'}
+
+
 def names_only(data, modname, ctx, what):
     """The pickle may reference globals by name; nothing of a definition."""
     if SENT_ATTR.encode() in data or SENT_DOC.encode() in data:
         ctx.violation('pickle-contains-definition', {'what': what})
+    carrier = what.startswith('instance of')
     for op, arg, pos in pickletools.genops(data):
         if op.name in ('BINBYTES', 'SHORT_BINBYTES', 'BINBYTES8', 'BYTEARRAY8'):
             ctx.violation('pickle-contains-bytes-blob', {'what': what, 'opcode': op.name})
+        elif not carrier and op.name not in ALLOWED_OPCODES:
+            # a specification travels as references to globals and a call with those as arguments: no state, no containers
+            ctx.violation('pickle-contains-state', {'what': what, 'opcode': op.name})
+            break
 
 
 def run_case(ctx, rng, job):
